@@ -1210,6 +1210,27 @@ def _delay_snapshot_mutation(fn: ast.FunctionDef, known: set) -> None:
             return _delay_snapshot_mutation(fn, known)
 
 
+def _all_local(fn: ast.FunctionDef, t: str) -> bool:
+    """Every read of local t is preceded, in its own block, by a plain assignment `t = ...` (so each read sees exactly that
+    assignment and no other)."""
+    loads = [x for x in ast.walk(fn) if isinstance(x, ast.Name) and x.id == t and isinstance(x.ctx, ast.Load)]
+    if not loads:
+        return False
+    blocks = _fn_blocks(fn)
+    for u in loads:
+        ok = False
+        for blk in blocks:
+            for k, st in enumerate(blk):
+                if any(u is x for x in ast.walk(st)):
+                    # innermost block wins: keep looking, but remember a hit
+                    if any(isinstance(p, ast.Assign) and len(p.targets) == 1 and isinstance(p.targets[0], ast.Name) and p.targets[0].id == t for p in blk[:k]) \
+                            and not any(isinstance(x, ast.Name) and x.id == t and isinstance(x.ctx, ast.Store) for x in ast.walk(st)):
+                        ok = True
+        if not ok:
+            return False
+    return True
+
+
 def _inline_fresh_temps(fn: ast.FunctionDef, known: set, multi: bool = True) -> None:
     """A local that the reference tree does not have, assigned once and read once in a later statement of the same block,
     is replaced by its expression (the inverse of "extract variable").  Applied only to names absent from the recorded
@@ -1269,7 +1290,7 @@ def _inline_fresh_temps(fn: ast.FunctionDef, known: set, multi: bool = True) -> 
                     here = [u for u in loads[t] if any(u is x for x in rest_nodes)]
                     restored = any(x is not st.targets[0] and any(x is y for y in rest_nodes) for x in stores.get(t, []))
                     sole = len(stores.get(t, [])) == 1 and len(here) == len(loads[t])
-                    leaves = isinstance(blk[-1], (ast.Return, ast.Raise)) and not any(isinstance(x, (ast.Break, ast.Continue)) for x in rest_nodes)
+                    leaves = (isinstance(blk[-1], (ast.Return, ast.Raise)) and not any(isinstance(x, (ast.Break, ast.Continue)) for x in rest_nodes)) or _all_local(fn, t)
                     if here and not restored and (sole or leaves) and _stable_rhs(fn, blk, i, st.value, here, params):
                         for u in here:
                             _replace_in(fn, u, _copy.deepcopy(st.value))
@@ -1282,7 +1303,7 @@ def _inline_fresh_temps(fn: ast.FunctionDef, known: set, multi: bool = True) -> 
                 here = [u for u in loads[t] if any(u is x for x in rest_nodes)]
                 restored = any(x is not st.targets[0] and any(x is y for y in rest_nodes) for x in stores.get(t, []))
                 sole = len(stores.get(t, [])) == 1 and len(loads[t]) == 1
-                leaves = isinstance(blk[-1], (ast.Return, ast.Raise)) and not any(isinstance(x, (ast.Break, ast.Continue)) for x in rest_nodes)
+                leaves = (isinstance(blk[-1], (ast.Return, ast.Raise)) and not any(isinstance(x, (ast.Break, ast.Continue)) for x in rest_nodes)) or _all_local(fn, t)
                 if len(here) != 1 or not (sole or (leaves and not restored)):
                     continue
                 use = here[0]
@@ -1446,6 +1467,8 @@ def canonicalise(tree: ast.Module, rel: str = "") -> ast.Module:
                             from . import canon
                             canon.normalise_expression_forms(n, rf)
                             canon.sink_tail_into_branches(n, rf)
+                            canon.sink_use_into_branches(n, rf, known)
+                            canon.enumerate_to_counter(n, rf, known)
                             canon.hoist_common_tail(n, rf)
                             canon.normalise_control_flow(n, rf.get("tests", []), rf.get("forms", {}))
                             canon.hoist_common_tail(n, rf)
